@@ -346,11 +346,24 @@ def conformance_pty(spec, acc):
         chunks = [stream[a:b] for a, b in zip([0] + cuts, cuts + [len(stream)])]
         sim, stats, samples = run_stream(stream, cuts, 0)
         want = [project.msg_proj(x) for x in sim.received] if sim is not None and not stats["error"] else None
+        import signal
+        from ..vloop import StepStalled
+
+        def _alarm(signum, frame):
+            raise StepStalled()
+        old_ = signal.signal(signal.SIGALRM, _alarm)
+        signal.setitimer(signal.ITIMER_REAL, 60.0)      # a real event loop: a callback that never returns would hang it for good
         try:
             got, retained = asyncio.run(asyncio.wait_for(one(stream, chunks), 30))
+        except StepStalled:
+            acc.inconclusive_because("simulator: loop-step-stalled (real serial path over a pty: the receive path did not return within 60 s)")
+            break
         except Exception as e:  # noqa: BLE001
             acc.note(f"pty conformance run could not be completed: {type(e).__name__}: {e}")
             continue
+        finally:
+            signal.setitimer(signal.ITIMER_REAL, 0)
+            signal.signal(signal.SIGALRM, old_)
         acc.count("pty_conformance_runs")
         acc.case(None)
         if want is None or got != want:
